@@ -138,6 +138,25 @@ var words = []string{"the", "quick", "brown", "fox", "jumps", "over", "lazy", "d
 // Payload draws member contents: empty / incompressible / highly
 // compressible / text / mixed / larger than 64 KiB (rare).
 func Payload(g Gen) (b []byte, kind string) {
+	b, kind = payload(g)
+	// boundary sizes: block and window sizes of the containers (tar 512, deflate 32 KiB,
+	// zip/gzip 64 KiB fields) are where padding and length arithmetic go wrong
+	if len(b) > 0 && g.Intn(6) == 0 {
+		sizes := []int{511, 512, 513, 1024, 1536, 255, 256, 4096, 32768, 65535, 65536}
+		n := sizes[g.Intn(len(sizes))]
+		if n > 4096 && g.Intn(3) != 0 {
+			n = sizes[g.Intn(8)]
+		}
+		nb := make([]byte, n)
+		for i := range nb {
+			nb[i] = b[i%len(b)]
+		}
+		return nb, kind + "-boundary-size"
+	}
+	return b, kind
+}
+
+func payload(g Gen) (b []byte, kind string) {
 	k := g.Intn(40)
 	switch {
 	case k < 5:
